@@ -133,7 +133,13 @@ func c11Sb(m jm) *verifapi.Superblock {
 	if s != nil {
 		osz, lsz = gi(s, "osz"), gi(s, "lsz")
 	}
-	return &verifapi.Superblock{Version: 2, OffsetSize: uint8(osz), LengthSize: uint8(lsz), Endianness: binary.LittleEndian}
+	ver := 2
+	if s != nil {
+		if _, has := s["ver"]; has {
+			ver = gi(s, "ver")
+		}
+	}
+	return &verifapi.Superblock{Version: uint8(ver), OffsetSize: uint8(osz), LengthSize: uint8(lsz), Endianness: binary.LittleEndian}
 }
 
 func basicMsg(t jm) *verifapi.DatatypeMessage {
